@@ -157,6 +157,19 @@ def oracle(sc, ctx, program):
                     out.append(("package:module-differs", "module inside the package document differs from Hugr.to_json()"))
             except Exception as e:  # noqa: BLE001
                 out.append(("package:raised", f"{type(e).__name__}: {e}"))
+    # the other origin: the loaded copy of the built HUGR, mutated (first mutation of each kind), is written again
+    for hist, l in mutate.loaded_histories(factory, _TIER):
+        if l is None:
+            continue  # C02 reports a mutation the loaded copy refuses
+        n += 1
+        tag = "loaded+" + hist[1][0]
+        try:
+            doc = json.loads(l.to_json())
+        except Exception as e:  # noqa: BLE001
+            out.append((f"to_json-raised:{tag}", f"to_json raised {type(e).__name__}: {e} | history={hist}"))
+            continue
+        for sig, msg in check_doc(l, doc, tag):
+            out.append((sig, f"{msg} | history={hist}"))
     ctx.c03_docs = n
     return [(s, f"{m} | program={program}") for s, m in out]
 
